@@ -127,6 +127,7 @@ def gen_cases(tier, seed):
     combos.append(dict(k=2, therm=False, out="file", pre=["out.h5", "out.h5.tmp", "out-1.h5.tmp"], pause="off"))
     combos.append(dict(k=2, therm=False, out="file", pre=["out.h5.tmp", "out-1.h5"], pause="off"))  # stale scratch of a vanished file + a later genuine result
     combos.append(dict(k=4, therm=False, out="file", pre=["out-1.h5", "out-2.h5.tmp"], pause="off"))
+    combos.append(dict(k=2, therm=False, out="file", pre=["out.h5@open"], pause="off"))  # the earlier result is still open in this process
     combos.append(dict(k=2, therm=False, out="file", pre=[], pause="no"))
     combos.append(dict(k=2, therm=True, out="file", pre=[], pause="no"))
     combos.append(dict(k=2, therm=False, out="temp", pre=[], pause="enter"))
@@ -188,7 +189,19 @@ def one_run(spec, device, fault, answer=None, line_fault=None):
     outdir = os.path.join(work, "o")
     os.makedirs(outdir)
     pre = {}
+    held_open = []
     for name in combo["pre"]:
+        if name.endswith("@open"):
+            # a genuine earlier result at the requested path that the caller still holds OPEN (h5py, read-only) during the run
+            import h5py
+
+            name = name[: -len("@open")]
+            p = os.path.join(outdir, name)
+            with h5py.File(p, "w") as f:
+                f["earlier_result"] = np.arange(7.0)
+            pre[name] = _sha(p)
+            held_open.append(h5py.File(p, "r"))
+            continue
         p = os.path.join(outdir, name)
         with open(p, "wb") as f:
             f.write(b"pre-existing " + name.encode() + os.urandom(16))
@@ -250,6 +263,11 @@ def one_run(spec, device, fault, answer=None, line_fault=None):
         R._get = orig_get
         builtins.input = orig_input
         os.chdir(cwd)
+        for h_ in held_open:
+            try:
+                h_.close()
+            except Exception:  # noqa: BLE001
+                pass
     fired = (fault is not None and fault.fired) or (line_fault is not None and line_fault.fired)
     C["runs"] = 1
     if not fired:
